@@ -77,6 +77,8 @@ def _seed_kwargs(stem, opts):
             return {int(k): v for k, v in x['dict'].items()}
         if isinstance(x, dict) and 'array' in x:
             return np.array(x['array'])
+        if isinstance(x, dict) and 'farray' in x:
+            return np.array(x['farray'], dtype=float)
         return list(x)
     kw = {}
     if 'all' in s:
